@@ -89,6 +89,8 @@ def main():
     # ---------------------------------------------------------------- 1. deductive part
     timeout_ms = '10000' if tier == 'quick' else '30000'
     os.environ['PYVC_Z3_TIMEOUT_MS'] = timeout_ms
+    if tier != 'quick':
+        os.environ['PYVC_SECOND_BACKEND'] = '1'
     results = run_many(sorted(mine), timeout=900 if tier == 'quick' else 3600) if mine else []
     # budgets are wall-clock: an obligation the ledger lists as discharged that is not discharged now (or a worker that timed
     # out) is retried once, alone on the machine and with four times the budget, before anything is concluded from it
@@ -111,6 +113,7 @@ def main():
     backends = {}
     assumptions = set()
     unproved = []        # (result, obligation)
+    second_backend = {}
     for r in results:
         fid = r['fid']
         con = mine[fid]
@@ -144,6 +147,12 @@ def main():
                 unproved.append((r, o))
         for x in r.get('assumptions', []):
             assumptions.add(x)
+        sbr = r.get('second_backend')
+        if sbr:
+            for k in ('checked', 'confirmed_unsat', 'no_answer'):
+                second_backend[k] = second_backend.get(k, 0) + sbr.get(k, 0)
+            for dis in sbr.get('disagree', []):
+                engine_errors.append(f"second back end {dis['backend']} answers sat on an obligation z3 discharged: {dis['obligation']}")
         # vacuity: fewer obligations than the ledger recorded for an unchanged function is an engine error
         led = ledger.get(fid)
         if led and not a.update_ledger and led.get('hash') == r.get('hash') and st == 'OK' and len(obs) < led.get('n', 0):
@@ -348,6 +357,7 @@ def main():
                                                'z3 5.1.0 (in-process), cvc5 1.0.3 and z3 4.8.12 (CLI, on z3 unknowns)'],
         'functions_under_contract': fn_rows,
         'backends': backends, 'solver_seconds': round(solver_time, 2),
+        'second_backend_sample': (dict(second_backend, what='thorough tier: up to 6 z3-discharged obligations per function re-run by cvc5 1.0.3 / z3 4.8.12 on the SMT-LIB dump') if second_backend else None),
         'undecided': undecided,
         'bounded_stand_in': {'label': 'bounded (never counted as proved)', 'scope': scope,
                              'evaluations': st_evals, 'distinct_inputs': st_inputs, 'per_function': sd['stats'],
